@@ -40,6 +40,12 @@ def run(repo: Repo, chk: Check) -> None:
 
 def query(repo: Repo, chk: Check, f: Func, resolver: str) -> None:
     chk.analysed(f)
+    for d in f.node.decorator_list:
+        txt = unparse(d)
+        memo = any(w in txt.lower() for w in ("cache", "memo"))
+        if not memo:
+            raise AnalysisError(f"{f.qual}: decorator @{txt} replaces the function by something this rule cannot see through")
+        chk.ob("O1", Site.of(f, d, f"@{txt}"), False, f"{f.name} is memoised by @{txt[:50]}: a later call returns the record chosen from an earlier answer set without asking DNS, not the best record of the current answers")
     for st, out in layout.Interp(repo, f).run(layout.self_state(repo, f)):
         if out.kind != "return":
             continue
